@@ -1,13 +1,111 @@
 package main
 
 import (
+	"flag"
 	"fmt"
-	"golang.org/x/tools/go/packages"
+	"os"
+	"runtime/debug"
+	"strconv"
+	"strings"
 )
 
+type Deep struct{}
+
 func main() {
-	cfg := &packages.Config{Mode: packages.NeedName | packages.NeedSyntax | packages.NeedTypes | packages.NeedTypesInfo | packages.NeedFiles | packages.NeedImports | packages.NeedDeps, Dir: "/repo", Env: append([]string{"GOFLAGS=-mod=mod", "GOPROXY=off", "GOSUMDB=off", "GOTOOLCHAIN=local", "GOWORK=off"}, envBase()...)}
-	pkgs, err := packages.Load(cfg, "./...")
-	fmt.Println(len(pkgs), err)
-	for _, p := range pkgs { fmt.Println(p.PkgPath, len(p.Syntax), len(p.Errors)) }
+	if len(os.Args) > 1 && os.Args[1] == "dump" {
+		dumpCmd(os.Args[2:])
+		return
+	}
+	if len(os.Args) > 1 && os.Args[1] == "explain" {
+		explainCmd(os.Args[2:])
+		return
+	}
+	prop := flag.String("property", "", "property id (C01..C20)")
+	tier := flag.String("tier", "", "quick|thorough")
+	repo := flag.String("repo", "/repo", "repository working tree")
+	verif := flag.String("verif", "/verif", "verification directory")
+	flag.Parse()
+	if *tier == "" {
+		*tier = os.Getenv("VERIF_TIER")
+	}
+	if *tier == "" {
+		*tier = "quick"
+	}
+	seed, _ := strconv.Atoi(os.Getenv("VERIF_SEED"))
+	spec, ok := properties[*prop]
+	if !ok {
+		fmt.Printf("UNDECIDED property=%s reason=unknown property\n", *prop)
+		os.Exit(2)
+	}
+	code := runProperty(*prop, spec, *tier, *repo, *verif, seed)
+	os.Exit(code)
+}
+
+func runProperty(prop string, spec propSpec, tier, repo, verif string, seed int) (code int) {
+	p, err := Load(repo, false, nil)
+	if err != nil {
+		fmt.Printf("UNDECIDED property=%s reason=load failed: %v\n", prop, err)
+		return 2
+	}
+	r := NewRun(p, prop, tier, seed)
+	defer func() {
+		if e := recover(); e != nil {
+			fmt.Printf("UNDECIDED property=%s reason=internal panic: %v\n%s\n", prop, e, debug.Stack())
+			code = 2
+		}
+	}()
+	if len(p.Pkgs) < 11 {
+		r.Undecide("loader", "only %d repository packages loaded (expected at least 11)", len(p.Pkgs))
+	}
+	for _, rule := range spec.Rules {
+		rule(r)
+	}
+	for _, a := range spec.Assumptions {
+		r.Assume(a)
+	}
+	return r.Finish(verif, spec.Explanation)
+}
+
+func dumpCmd(args []string) {
+	fs := flag.NewFlagSet("dump", flag.ExitOnError)
+	repo := fs.String("repo", "/repo", "")
+	fs.Parse(args)
+	p, err := Load(*repo, false, nil)
+	if err != nil {
+		fmt.Println("load:", err)
+		os.Exit(2)
+	}
+	e := NewEngine(p)
+	for _, f := range p.All {
+		match := fs.NArg() == 0
+		for _, a := range fs.Args() {
+			if strings.Contains(f.Name, a) {
+				match = true
+			}
+		}
+		if !match {
+			continue
+		}
+		ps := e.Paths(f)
+		fmt.Printf("== %s: %d paths\n", f.Name, len(ps))
+		if fs.NArg() > 0 {
+			for i, pt := range ps {
+				fmt.Printf("  #%d %s\n", i, p.PathStr(pt))
+			}
+		}
+	}
+	fmt.Println("truncated:", e.Trunc)
+}
+
+func explainCmd(args []string) {
+	if len(args) < 1 {
+		fmt.Println("usage: hagcheck explain <violation.json>")
+		os.Exit(2)
+	}
+	b, err := os.ReadFile(args[0])
+	if err != nil {
+		fmt.Println(err)
+		os.Exit(2)
+	}
+	fmt.Println(string(b))
 }
